@@ -43,6 +43,7 @@ def main():
         same = "same" if digest == data["violation"].get("digest") else "different"
         print(f"replay {args.replay}: property={data['property']} clause={data['violation']['clause']}")
         print(f"  {detail}")
+        print(f"  digest-value={digest}")
         if ok:
             print(f"  digest={same}")
             print(f"VIOLATION property={data['property']} replay={args.replay}")
